@@ -254,6 +254,67 @@ func runC16(r *Run) {
 		})
 	}
 	r.Floor("R4", "iterator callbacks in precompiles", nCb, 3)
+	// R5: a handler that applies a Cosmos-side effect per element of a list applies it to every element
+	r.Rule("R5", "PATH.per-element-effect: in a precompile handler, a loop whose body performs a Cosmos-side effect performs it on every iteration — from the start of the body the loop header (next element) or a success exit is reachable only through the effect call; no filter `continue`/`break` decides which elements the native message would have processed anyway")
+	nLoopEff := 0
+	for _, m := range wiredPrecompiles(r) {
+		for _, h := range m.Handlers {
+			if h.Fn == nil {
+				continue
+			}
+			fn := h.Fn
+			for _, hd := range fn.Blocks {
+				if !isLoopHeader(hd) {
+					continue
+				}
+				body := loopBody(hd)
+				var effects []ssa.Instruction
+				for b := range body {
+					for _, in := range b.Instrs {
+						if c, ok := in.(ssa.CallInstruction); ok && isCosmosEffect(callInfo(c)) {
+							effects = append(effects, in)
+						}
+					}
+				}
+				if len(effects) == 0 {
+					continue
+				}
+				nLoopEff++
+				isEff := func(in ssa.Instruction) bool {
+					for _, e := range effects {
+						if e == in {
+							return true
+						}
+					}
+					return false
+				}
+				// body entry: the successor of the header that is inside the loop
+				var starts []*ssa.BasicBlock
+				for _, sc := range hd.Succs {
+					if body[sc] && sc != hd {
+						starts = append(starts, sc)
+					}
+				}
+				okAll := len(starts) > 0
+				var wit []string
+				for _, sb := range starts {
+					w := PathQuery{Fn: fn, StartBlock: sb, Block: isEff, Target: func(in ssa.Instruction) bool {
+						if in == hd.Instrs[0] {
+							return true
+						}
+						return !body[in.Block()] && isSuccessExit(in)
+					}}.Search()
+					if w != nil {
+						okAll = false
+						wit = P.witness(w)
+					}
+				}
+				r.Check(okAll, "R5", fmt.Sprintf("%s#loop@%s", fnID(fn), hd.Comment), P.Pos(instrPos(hd.Instrs[0])), "every iteration performs the effect",
+					"an iteration of this loop can be skipped (or the loop left with success) without performing the Cosmos-side effect: the precompile then does less than the native message(s) would — e.g. rewards of some validators stay unclaimed although the call reports success", wit...)
+			}
+		}
+	}
+	r.Floor("R5", "handler loops with a Cosmos-side effect", nLoopEff, 1)
 	// RunSetup
 	if rs, ok := P.FnOK("(precompiles/common.Precompile).RunSetup"); ok {
 		okMeter := false
